@@ -124,6 +124,7 @@ func propC09(w *World, r *Report) {
 	RunSortedBeforeIndexed(w, r, cm)
 	RunBigEndian(w, r, func(p string) bool { return p == modPath+"/cmap" })
 	RunNarrowArith(w, r, cm)
+	RunControl(r, "narrowarith", "ctlNarrowArith", RunNarrowArith)
 	r.Floor("bigendian/read", 15)
 	r.Floor("mapdet", 4)
 }
